@@ -199,3 +199,112 @@ Proof.
   - rewrite (Hd2 eq_refl) in *. rewrite app_nil_r.
     rewrite (parse_dec_int ip N D). reflexivity.
 Qed.
+
+(* ---------- PATTERN quantifiers: every written form is read with the written bounds ---------- *)
+Lemma p_bound_digits : forall d, all_digits d = true -> p_bound (mkTok T_Number d) = Some (digits_val 0 d).
+Proof. intros d H. unfold p_bound. cbn. rewrite H. reflexivity. Qed.
+
+Lemma take_reluctant_greedy : forall r, hd_is (ty_is T_Question) r = false -> take_reluctant r = (true, r).
+Proof. intros [|t r] H; cbn in *; [reflexivity | rewrite H; reflexivity]. Qed.
+
+Lemma take_reluctant_mark : forall q r, take_reluctant (mkTok T_Question q :: r) = (false, r).
+Proof. reflexivity. Qed.
+
+(* {n,m} with n <= m -- n = m and n = 0 included *)
+Lemma quant_bounded_as_written : forall lb dn cm dm rb r,
+  all_digits dn = true -> all_digits dm = true -> digits_val 0 dn <= digits_val 0 dm ->
+  hd_is (ty_is T_Question) r = false ->
+  p_quant (mkTok T_LBrace lb :: mkTok T_Number dn :: mkTok T_Comma cm :: mkTok T_Number dm :: mkTok T_RBrace rb :: r)
+  = Some (Some (digits_val 0 dn, Some (digits_val 0 dm), true), r).
+Proof.
+  intros lb dn cm dm rb r Hn Hm Hle Hr. unfold p_quant, p_bounded. cbn.
+  rewrite (p_bound_digits _ Hn), (p_bound_digits _ Hm).
+  apply N.leb_le in Hle. rewrite Hle. cbn. rewrite (take_reluctant_greedy _ Hr). reflexivity.
+Qed.
+
+(* the other forms *)
+Lemma quant_exact_as_written : forall lb dn rb r,
+  all_digits dn = true -> hd_is (ty_is T_Question) r = false ->
+  p_quant (mkTok T_LBrace lb :: mkTok T_Number dn :: mkTok T_RBrace rb :: r)
+  = Some (Some (digits_val 0 dn, Some (digits_val 0 dn), true), r).
+Proof.
+  intros lb dn rb r Hn Hr. unfold p_quant, p_bounded. cbn. rewrite (p_bound_digits _ Hn). cbn.
+  rewrite (take_reluctant_greedy _ Hr). reflexivity.
+Qed.
+
+Lemma quant_at_least_as_written : forall lb dn cm rb r,
+  all_digits dn = true -> hd_is (ty_is T_Question) r = false ->
+  p_quant (mkTok T_LBrace lb :: mkTok T_Number dn :: mkTok T_Comma cm :: mkTok T_RBrace rb :: r)
+  = Some (Some (digits_val 0 dn, None, true), r).
+Proof.
+  intros lb dn cm rb r Hn Hr. unfold p_quant, p_bounded. cbn. rewrite (p_bound_digits _ Hn). cbn.
+  rewrite (take_reluctant_greedy _ Hr). reflexivity.
+Qed.
+
+Lemma quant_symbols_as_written : forall v r, hd_is (ty_is T_Question) r = false ->
+  p_quant (mkTok T_Question v :: r) = Some (Some (0, Some 1, true), r)
+  /\ p_quant (mkTok T_Asterisk v :: r) = Some (Some (0, None, true), r)
+  /\ p_quant (mkTok T_Plus v :: r) = Some (Some (1, None, true), r).
+Proof.
+  intros v r Hr. unfold p_quant. cbn. rewrite (take_reluctant_greedy _ Hr). repeat split; reflexivity.
+Qed.
+
+(* {n,n} is {n}: same reading whatever follows (two spellings of one bound may differ in leading zeros) *)
+Lemma quant_equal_bounds : forall lb dn cm dm rb r,
+  all_digits dn = true -> all_digits dm = true -> digits_val 0 dn = digits_val 0 dm ->
+  p_quant (mkTok T_LBrace lb :: mkTok T_Number dn :: mkTok T_Comma cm :: mkTok T_Number dm :: mkTok T_RBrace rb :: r)
+  = p_quant (mkTok T_LBrace lb :: mkTok T_Number dn :: mkTok T_RBrace rb :: r).
+Proof.
+  intros lb dn cm dm rb r Hn Hm He. unfold p_quant, p_bounded. cbn.
+  rewrite (p_bound_digits _ Hn), (p_bound_digits _ Hm). cbn. rewrite <- He, N.leb_refl. reflexivity.
+Qed.
+
+(* a '?' written after a quantifier changes the greedy flag and nothing else: whenever a quantifier is read
+   as greedy with [r] left over, the same tokens with a '?' inserted before [r] give the same bounds, reluctant *)
+Lemma quant_reluctant : forall toks lo hi r q,
+  p_quant toks = Some (Some (lo, hi, true), r) ->
+  exists pre, toks = pre ++ r /\ p_quant (pre ++ mkTok T_Question q :: r) = Some (Some (lo, hi, false), r).
+Proof.
+  intros toks lo hi r q H.
+  assert (TR : forall l g l', take_reluctant l = (g, l') -> g = true -> l' = l /\ take_reluctant (mkTok T_Question q :: l) = (false, l)).
+  { intros l g l' E G. destruct l as [|t l0]; cbn in E.
+    - inversion E; subst. split; reflexivity.
+    - destruct (ty_is T_Question t); inversion E; subst; [discriminate|]. split; reflexivity. }
+  destruct toks as [|t r0]; [discriminate|]. unfold p_quant in H.
+  destruct (ty_is T_Question t) eqn:E1.
+  { destruct (take_reluctant r0) as [g l'] eqn:E. inversion H; subst. destruct (TR _ _ _ E eq_refl) as [-> T2].
+    exists [t]. split; [reflexivity|]. cbn [app]. unfold p_quant. rewrite E1, T2. reflexivity. }
+  destruct (ty_is T_Asterisk t) eqn:E2.
+  { destruct (take_reluctant r0) as [g l'] eqn:E. inversion H; subst. destruct (TR _ _ _ E eq_refl) as [-> T2].
+    exists [t]. split; [reflexivity|]. cbn [app]. unfold p_quant. rewrite E1, E2, T2. reflexivity. }
+  destruct (ty_is T_Plus t) eqn:E3.
+  { destruct (take_reluctant r0) as [g l'] eqn:E. inversion H; subst. destruct (TR _ _ _ E eq_refl) as [-> T2].
+    exists [t]. split; [reflexivity|]. cbn [app]. unfold p_quant. rewrite E1, E2, E3, T2. reflexivity. }
+  destruct (ty_is T_LBrace t) eqn:E4; [|discriminate].
+  destruct (hd_is (ty_is T_Minus) r0) eqn:E5; [discriminate|].
+  destruct (p_bounded r0) as [[[lo' hi'] r1]|] eqn:EB; [|discriminate].
+  destruct (take_reluctant r1) as [g l'] eqn:E. injection H as H1 H2 H3 H4. subst lo' hi' g l'.
+  destruct (TR _ _ _ E eq_refl) as [E' T2]. subst r1.
+  (* the bounded form consumed a prefix of r0 *)
+  assert (PB : exists pre, r0 = pre ++ r /\ forall x, hd_is (ty_is T_Minus) (pre ++ x) = false /\ p_bounded (pre ++ x) = Some ((lo, hi), x)).
+  { clear - EB E5. unfold p_bounded in EB.
+    destruct r0 as [|n [|c r2]]; try discriminate.
+    destruct (p_bound n) as [lo0|] eqn:Bn; [|discriminate].
+    destruct (ty_is T_RBrace c) eqn:C1.
+    { inversion EB; subst. exists [n; c]. split; [reflexivity|]. intro x. split; [exact E5|]. unfold p_bounded. cbn [app]. rewrite Bn, C1. reflexivity. }
+    destruct (ty_is T_Comma c) eqn:C2; [|discriminate].
+    destruct r2 as [|m r3]; [discriminate|].
+    destruct (ty_is T_RBrace m) eqn:C3.
+    { inversion EB; subst. exists [n; c; m]. split; [reflexivity|]. intro x. split; [exact E5|]. unfold p_bounded. cbn [app]. rewrite Bn, C1, C2, C3. reflexivity. }
+    destruct (p_bound m) as [hi0|] eqn:Bm; [|discriminate].
+    destruct r3 as [|e r4]; [discriminate|].
+    destruct (ty_is T_RBrace e && (lo0 <=? hi0)) eqn:C4; [|discriminate].
+    inversion EB; subst. exists [n; c; m; e]. split; [reflexivity|]. intro x. split; [exact E5|]. unfold p_bounded. cbn [app]. rewrite Bn, C1, C2, C3, Bm, C4. reflexivity. }
+  destruct PB as [pre [-> PB]]. exists (t :: pre). split; [reflexivity|].
+  cbn [app]. unfold p_quant. rewrite E1, E2, E3, E4. destruct (PB (mkTok T_Question q :: r)) as [M B]. rewrite M, B, T2. reflexivity.
+Qed.
+
+(* "{-" after a pattern element opens an exclusion, it is not a quantifier *)
+Lemma quant_exclusion_is_no_quantifier : forall lb m r,
+  p_quant (mkTok T_LBrace lb :: mkTok T_Minus m :: r) = Some (None, mkTok T_LBrace lb :: mkTok T_Minus m :: r).
+Proof. reflexivity. Qed.
